@@ -92,6 +92,21 @@ def run(ck: Check):
                     lg.train()
                     got = outcome(lambda: lg(torch.rand(2, n)))
                     record("dense-gumbel", {"param": par, "mode": mode, "tau": tau, "bad": "tau"}, tau > 0, got)
+    # an unknown sampling mode (given to the constructor or assigned later) must not silently compute something in training mode
+    for par in ("raw", "walsh"):
+        for mode in ("Soft", "sample", None, "gumbel", "soft", "hard"):
+            for late in (False, True):
+                try:
+                    lm = LogicDense(4, 3, device="cpu", parametrization=par, **({} if late else {"forward_sampling": mode}))
+                    if late:
+                        lm.forward_sampling = mode
+                except Exception:
+                    record("dense-sampling", {"param": par, "mode": mode, "late": late, "bad": "mode"}, False, ("raised", "ctor"))
+                    continue
+                lm.train()
+                got = outcome(lambda: lm(torch.rand(2, 4)))
+                record("dense-sampling", {"param": par, "mode": mode, "late": late, "bad": "mode"},
+                       mode in ("soft", "hard", "gumbel_soft", "gumbel_hard"), got)
     for tau in (-2.0, 0.0, 0.5):
         for hard in (False, True):
             got = outcome(lambda: gumbel_sigmoid(torch.zeros(3), tau=tau, hard=hard))
@@ -204,6 +219,20 @@ def run(ck: Check):
         feat = len(hn.eval_spec(dict(hn.extract(mdl), k=None), [0] * int(np.prod(shp))))
         got = outcome(lambda: CompiledLogicNet(mdl, num_bits=8))
         record("compiler-groupsum-width", {"features": feat, "k": k, "dims": len(shp) - 1, "bad": "divisible"}, feat % k == 0, got)
+    # a batch whose per-sample size is not the compiled input size must be refused by forward (both call paths)
+    import numpy as _np
+    for with_gs in (True, False):
+        mdl2 = torch.nn.Sequential(LogicDense(11, 24, device="cpu"), *( [GroupSum(3, device="cpu")] if with_gs else []))
+        try:
+            net2 = hc.build(mdl2, 8)
+            hc.compile_net(net2)
+        except Exception as e:
+            ck.broke("correspondence", "harness", f"could not compile the size-probe library: {e!r}")
+            continue
+        for shp in ((8, 11), (8, 10), (8, 12), (11,), (8, 11, 2), (3, 11), (8, 1, 11)):
+            ok_shape = len(shp) >= 2 and int(_np.prod(shp[1:])) == 11
+            got = outcome(lambda: net2.forward(_np.zeros(shp, dtype=bool)))
+            record("compiled-forward-shape", {"groupsum": with_gs, "x_shape": list(shp), "bad": "sample-size"}, ok_shape, got)
     got = outcome(lambda: CompiledLogicNet(torch.nn.Sequential(torch.nn.Flatten(), GroupSum(1, device="cpu")), num_bits=8))
     record("compiler-ctor", {"bad": "no-logic-layer"}, False, got)
     comp_rows.append((8, "gcc", 0, got[0] == "returned"))
